@@ -1,6 +1,23 @@
-"""placeholder; build only"""
-import json, os, random, math, concurrent.futures as cf
+"""C14 C15 C16: what the storage devices (raw / tiff / tiff-json / trash) write to files and how they treat descriptors.
+
+  (1) TLC on the implementation-shaped models RawWriter / TiffWriter (+ composite) composed with the OS model FileOsModel:
+      exhaustive for small constants; invariants = the property clauses (file = appended frames; directory chain of exactly
+      N entries ending in 0; sections disjoint and inside the file; only owned descriptors; failure reported; no unbounded
+      recursion).  The as-it-was variants (FIXED / FIX_* = 0) are run as well and must violate them (recorded as evidence).
+  (2) spec -> code: TLC exports every transition of a bounded graph with a witness history (set/start/append*/stop cycles,
+      packets, short-write scripts, fault index); harness/files/files_seq.cpp drives the REAL devices through the REAL HAL
+      along each history, the OS seam plays the script, and the returned states and the exact OS call sequence (call,
+      descriptor, offset, length, result) are compared with the model after every step      -> DRIFT only.
+  (3) code -> spec: every execution's trace (device calls + OS calls + read-back of raw files) is judged by the total trace
+      spec FileObs in TLC (C14, C16); every finished .tif / metadata.json is parsed by the independent reader
+      tools/tiffread.py and its events judged by TiffObs (C15)                               -> VIOLATION.
+  (4) seeded random histories (shapes incl. odd sizes, all sample types, metadata, pixel scales, file:// URIs, byte-granular
+      short writes) and, for C16, exhaustive fault enumeration: every fallible OS call index of reference histories x
+      transient/persistent x storage kind, each case in a child process with a small stack and a watchdog.
+"""
+import json, os, random, shutil, time, concurrent.futures as cf
 from vlib import *
+import tiffread
 
 DRIVER_SRCS = [
     "acquire-driver-common/src/basics.driver.c",
@@ -23,9 +40,866 @@ DRIVER_SRCS = [
 ]
 OS_WRAPS = ["open", "close", "pwrite", "flock", "unlink", "access"]
 
+RULES = {
+    "C14": {"RawFileMissing", "RawFileShiftedByHole", "RawFileMismatch"},
+    "C15": {"BadHeader", "FirstLinkOutsideFile", "DirectoryOutsideFile", "RequiredTagMissing", "StripOutsideFile",
+            "DescriptionOutsideFile", "LinkOutsideFile", "StructuresOverlap", "WrongWidthHeight", "WrongBitsPerSample",
+            "WrongSampleFormat", "StripBytesDiffer", "DescriptionNotJson", "DescriptionWrongIds", "MetadataNotOnFirstFrame",
+            "MetadataNotTheUsers", "FileMissing", "TooFewDirectories", "TooManyDirectories", "ChainNotTerminated",
+            "MetadataJsonWrong"},
+    "C16": {"DoubleClose", "CloseForeignDescriptor", "CloseStdDescriptor", "CloseNeverOpened", "WriteAfterClose",
+            "WriteForeignDescriptor", "WriteNeverOpened", "FlockAfterClose", "FlockForeignDescriptor", "FlockNeverOpened",
+            "DescriptorLeak", "FailureNotReported", "RunningAfterCreateFailed", "Crash", "StackOverflow", "Timeout"},
+}
+HARNESS_RULES = {"HarnessBadEvent", "HarnessNestedCall", "HarnessFdNotLowestFree", "HarnessPwriteResult",
+                 "HarnessFileModelMismatch", "UnknownEvent", "ChainOrderBroken", "HarnessEofCount", "HarnessBadAcq"}
+TYPES = ["u8", "u16", "i8", "i16", "f32", "u10", "u12", "u14"]
+BPP = tiffread.BPP
+METAS = ['{"k":1}', '{"hello":"world","n":[1,2,3]}', '{"a":{"b":"c d"},"e":1.5}', '{}', '{"list":[{"x":1},{"x":2}],"s":"\\u00e9"}']
+SCALES = [(1, 1), (0.5, 0.25), (2, 3), (0, 0), (1.5, 0.001), (6.5, 6.5)]
+TLC_WORKERS = max(2, min(8, NCPU // 2))
+
 
 def build_files(bdir):
     objs = compile_objs(bdir, DRIVER_SRCS + [os.path.join(HARNESS, "files/files_seq.cpp")],
                         cflags=["-mavx2"], cxxflags=["-mavx2"], defs=["NO_UNIT_TESTS"],
                         extra_inc=[os.path.join(REPO, "acquire-driver-common/src/simcams/3rdParty/pcg-c-basic-0.9")])
     return link(os.path.join(bdir, "files_seq"), objs, wraps(OS_WRAPS))
+
+
+# ------------------------------------------------------------------------------------------------ cases
+def frame_tok(f):
+    return "%d,%d,%s,%d,%d,%d,%d,%d" % (f["w"], f["h"], f["ty"], f["pad"], f["id"], f["hw"], f["trt"], f["thw"])
+
+
+def ext_of(kind):
+    return {"raw": ".raw", "tiff": ".tif", "tiff-json": ".d", "trash": ".x"}[kind]
+
+
+def case_text(c):
+    L = ["case %d" % c["id"], "unit %d" % c.get("unit", 0), "stack %d" % c.get("stack", 256), "timeout %d" % c.get("timeout", 20)]
+    if c.get("fault"):
+        L.append("fault %d %s" % (c["fault"][0], c["fault"][1]))
+    for d, k in sorted(c["devs"].items()):
+        L.append("dev %d %s" % (int(d), k))
+    for p, name in sorted(c["paths"].items()):
+        L.append("path %d %s" % (int(p), name))
+    for m, txt in sorted(c.get("metas", {}).items()):
+        L.append("meta %d %s" % (int(m), txt))
+    for o in c["ops"]:
+        t = "op %s %d" % (o["op"], o["d"])
+        if o["op"] == "set":
+            t += " %d %s %s %r %r" % (o["pid"], o.get("form", "plain"), o["mid"] if o.get("mid") else "-", o.get("sx", 1), o.get("sy", 1))
+        elif o["op"] == "append":
+            t += " " + " ".join(frame_tok(f) for f in o["frames"])
+        if o.get("sw"):
+            t += " sw " + ",".join(o["sw"])
+        L.append(t)
+    L.append("end")
+    return "\n".join(L) + "\n"
+
+
+def norm_case(c):
+    """JSON round trips turn int keys into strings."""
+    c["devs"] = {int(k): v for k, v in c["devs"].items()}
+    c["paths"] = {int(k): v for k, v in c["paths"].items()}
+    c["metas"] = {int(k): v for k, v in c.get("metas", {}).items()}
+    if c.get("fault"):
+        c["fault"] = tuple(c["fault"])
+    return c
+
+
+def run_chunk(exe, cases, bdir, tag):
+    cf_ = os.path.join(bdir, tag + ".cases")
+    tr = os.path.join(bdir, tag + ".ndjson")
+    wd = os.path.join(bdir, tag + ".w")
+    shutil.rmtree(wd, ignore_errors=True)
+    os.makedirs(wd)
+    with open(cf_, "w") as f:
+        for c in cases:
+            f.write(case_text(c))
+    rc, out = run([exe, cf_, tr, wd], timeout=120 + 25 * len(cases))
+    if rc != 0:
+        raise Broken("files_seq failed (rc=%s) on %s: %s" % (rc, cf_, out[-800:]))
+    return tr, wd
+
+
+def run_cases(exe, cases, bdir, tag, nchunks=None):
+    """Runs the cases in parallel chunks. Returns list of (cases, trace, workdir)."""
+    n = nchunks or max(1, min(NCPU, (len(cases) + 39) // 40))
+    chunks = [cases[i::n] for i in range(n)]
+    chunks = [c for c in chunks if c]
+    with cf.ThreadPoolExecutor(max_workers=NCPU) as ex:
+        res = list(ex.map(lambda ic: run_chunk(exe, ic[1], bdir, "%s_%02d" % (tag, ic[0])), enumerate(chunks)))
+    return [(c, tr, wd) for c, (tr, wd) in zip(chunks, res)]
+
+
+def split_trace(trace):
+    """-> list of (first_line_number, [events]) per execution, and the raw lines."""
+    lines = open(trace).read().splitlines()
+    execs = []
+    for i, l in enumerate(lines, 1):
+        e = json.loads(l)
+        if e["e"] == "Reset":
+            execs.append((i, [e]))
+        elif execs:
+            execs[-1][1].append(e)
+    return execs, lines
+
+
+def per_op(events):
+    """Group one execution's events by harness op: [{call, os:[...], ret, reads:[...]}...], exit event."""
+    ops, ex = [], None
+    cur = None
+    for e in events[1:]:
+        k = e["e"]
+        if k == "Call":
+            cur = {"call": e, "os": [], "ret": None, "reads": [], "skip": False}
+            ops.append(cur)
+        elif k == "Skip":
+            ops.append({"call": e, "os": [], "ret": None, "reads": [], "skip": True})
+            cur = None
+        elif k == "Ret":
+            if cur is not None:
+                cur["ret"] = e
+        elif k == "FileRead":
+            if ops:
+                ops[-1]["reads"].append(e)
+        elif k == "Exit":
+            ex = e
+        elif cur is not None:
+            cur["os"].append(e)
+    return ops, ex
+
+
+# ------------------------------------------------------------------------------------------------ TLC helpers
+def mc_cfg(path, consts, invariants, export=False):
+    t = "CONSTANTS " + " ".join("%s = %s" % kv for kv in consts.items()) + "\nSPECIFICATION Spec\nVIEW View\nCHECK_DEADLOCK FALSE\n"
+    if export:
+        t += "ACTION_CONSTRAINT EmitEdge\n"
+    if invariants:
+        t += "INVARIANTS " + " ".join(invariants) + "\n"
+    return write_cfg(path, t)
+
+
+def tla(v):
+    if isinstance(v, bool):
+        return "TRUE" if v else "FALSE"
+    return str(v)
+
+
+RAW_INV = ["NoErr", "TypeOK", "OwnsItsFile", "RunningFile"]
+TIFF_INV = ["NoErr", "NoCrash", "TypeOK", "OwnsItsFile", "Cursors", "InnerFollowsOuter"]
+
+
+def raw_consts(**kw):
+    c = dict(NDev=2, NPaths=3, MaxCycles=2, MaxAppends=2, PacketSizes="{1, 2, 3}", NScripts=5, MaxFaultAt=8, FIXED=1, MaxFd=5,
+             Ghost="TRUE", Export="FALSE")
+    c.update({k: tla(v) for k, v in kw.items()})
+    return c
+
+
+def tiff_consts(**kw):
+    c = dict(NDev=1, NPaths=3, Kinds1='{"tiff", "sbs"}', MaxCycles=2, MaxAppends=2, MaxPacket=2, Real="FALSE", NKinds=2, NScripts=3,
+             MaxFaultAt=0, MaxDepth=4, FIX_TIFF=1, FIX_SBS=1, FIX_META=1, MaxFd=5, Ghost="TRUE", Export="FALSE")
+    c.update({k: tla(v) for k, v in kw.items()})
+    return c
+
+
+def run_mc(spec, name, consts, inv, bdir, timeout, workers=None):
+    cfg = mc_cfg(os.path.join(bdir, name + ".cfg"), consts, inv)
+    r = tlc(spec, cfg, bdir, workers=workers or TLC_WORKERS, timeout=timeout, coverage=False, heap="3g")
+    return r
+
+
+def run_export(spec, name, consts, bdir, timeout):
+    c = dict(consts)
+    c["Export"] = "TRUE"
+    cfg = mc_cfg(os.path.join(bdir, name + ".cfg"), c, ["TypeOK"], export=True)
+    r = tlc(spec, cfg, bdir, workers=1, timeout=timeout, coverage=False, heap="3g")
+    tlc_or_broken(r, "export of " + name)
+    edges = list(iter_printed_json(r.outpath, "EDGE"))
+    os.remove(r.outpath)
+    return r, edges
+
+
+def validate(spec, trace, workdir, heap="3g"):
+    cfg = os.path.join(SPECS, spec + ".cfg")
+    r = tlc(spec, cfg, workdir, workers=1, timeout=1500, env={"TRACE": trace}, coverage=False, heap=heap)
+    v = printed_json(r, "VERDICT")
+    if not v:
+        raise Broken("%s produced no verdict for %s: rc=%s %s\n%s" % (spec, trace, r.rc, r.error, r.out[-2500:]))
+    nlines = sum(1 for _ in open(trace))
+    if v[0]["consumed"] != nlines:
+        raise Broken("%s consumed %d of %d events of %s" % (spec, v[0]["consumed"], nlines, trace))
+    try:
+        os.remove(r.outpath)
+    except OSError:
+        pass
+    return v[0]
+
+
+# ------------------------------------------------------------------------------------------------ model history -> case
+RAW_UNITS = [104, 97, 128, 131, 100, 160]
+RAW_SW = {"F": "F", "Z": "Z"}
+
+
+def shape_for(rng, room, aligned_pad=None):
+    """A frame shape whose pixel bytes fit into `room` bytes; returns (w, h, ty, pad)."""
+    for _ in range(20):
+        ty = rng.choice(TYPES)
+        b = BPP[ty]
+        if room // b >= 1:
+            break
+    else:
+        ty, b = "u8", 1
+    mx = room // b
+    w = rng.randint(1, min(mx, 9))
+    h = rng.randint(1, max(1, min(mx // w, 7)))
+    return w, h, ty, room - w * h * b
+
+
+def digits(rng, n):
+    return rng.randint(10 ** (n - 1) if n > 1 else 0, 10 ** n - 1)
+
+
+def raw_frames(rng, ncells, U, nid):
+    frames, left = [], ncells
+    while left > 0:
+        c = rng.randint(1, left)
+        w, h, ty, pad = shape_for(rng, c * U - 96)
+        frames.append(dict(w=w, h=h, ty=ty, pad=pad, id=nid + len(frames), hw=rng.randint(0, 2 ** 40), trt=rng.randint(0, 2 ** 50),
+                           thw=rng.randint(0, 2 ** 50)))
+        left -= c
+    return frames
+
+
+def raw_edge_to_case(edge, cid, rng):
+    U = rng.choice(RAW_UNITS)
+    f = edge["fault"]
+    c = dict(id=cid, unit=U, fault=(f["at"], "p" if f["pers"] else "t") if f["at"] else None, devs={}, paths={}, metas={}, ops=[],
+             expect=[], origin="RawWriter")
+    nid = {}
+    for st in edge["path"]:
+        d = st["d"] - 1
+        c["devs"][d] = "raw"
+        o = dict(op=st["op"], d=d)
+        if st["op"] == "set":
+            p = st["arg"]
+            c["paths"][p] = "x%d_p%d.raw" % (cid, p)
+            o.update(pid=p, form=rng.choice(["plain", "file"]), mid=None, sx=1, sy=1)
+        elif st["op"] == "start":
+            nid[d] = 0
+        elif st["op"] == "append":
+            o["frames"] = raw_frames(rng, st["arg"], U, nid.get(d, 0))
+            nid[d] = nid.get(d, 0) + len(o["frames"])
+            o["sw"] = [{"H": "h%d" % U, "S1": "S%d" % U}.get(t, t) for t in st["sw"]]
+        exp = []
+        for x in st["os"]:
+            if x["c"] == "open":
+                exp.append(("Open", x["a"], x["r"]))
+            elif x["c"] == "unlink":
+                exp.append(("Unlink", x["a"], 0))
+            elif x["c"] == "pwrite":
+                exp.append(("Pwrite", x["a"], x["off"] * U, x["n"] * U, x["r"] * U if x["r"] > 0 else x["r"]))
+            else:
+                exp.append((x["c"].capitalize(), x["a"], x["r"]))
+        c["ops"].append(o)
+        c["expect"].append(dict(st=st["st"], os=exp))
+    return c
+
+
+TIFF_KINDS = {1: (8, 77), 2: (13, 88), 3: (24, 81)}     # FrameKinds of TiffWriter with Real = TRUE: strip bytes, description bytes
+META_REAL = '{"k":1}'                                  # 7 bytes: MjSz = 7, MetaSz = 12 + 7
+
+
+def tiff_frame(rng, kind, idx):
+    d, s = TIFF_KINDS[kind]
+    w, h, ty, pad = shape_for(rng, d)
+    nd = s - 73 - 2          # digits left for the two timestamps (frame id and hardware id take one each)
+    a = rng.randint(1, nd - 1)
+    return dict(w=w, h=h, ty=ty, pad=pad, id=idx, hw=rng.randint(0, 9), trt=digits(rng, a), thw=digits(rng, nd - a))
+
+
+def tiff_edge_to_case(edge, cid, rng):
+    f = edge["fault"]
+    c = dict(id=cid, unit=0, fault=(f["at"], "p" if f["pers"] else "t") if f["at"] else None, devs={}, paths={}, metas={1: META_REAL},
+             ops=[], expect=[], origin="TiffWriter")
+    nid = {}
+    for st in edge["path"]:
+        d = st["d"] - 1
+        o = dict(op=st["op"], d=d)
+        if st["op"] == "open":
+            c["devs"][d] = "tiff-json" if st["arg"][0] == "sbs" else "tiff"
+        elif st["op"] == "set":
+            p, meta = st["arg"]
+            c["paths"][p] = "x%d_p%d%s" % (cid, p, ext_of(c["devs"][d]))
+            sx, sy = rng.choice(SCALES)
+            o.update(pid=p, form=rng.choice(["plain", "file"]), mid=1 if meta else None, sx=sx, sy=sy)
+        elif st["op"] == "start":
+            nid[d] = 0
+        elif st["op"] == "append":
+            o["frames"] = [tiff_frame(rng, k, nid.get(d, 0) + i) for i, k in enumerate(st["arg"])]
+            nid[d] = nid.get(d, 0) + len(o["frames"])
+        if st["sw"]:
+            o["sw"] = list(st["sw"])
+        exp = []
+        for x in st["os"]:
+            if x["c"] == "open":
+                exp.append(("Open", x["a"], x["r"]))
+            elif x["c"] == "unlink":
+                exp.append(("Unlink", x["a"], 0))
+            elif x["c"] == "pwrite":
+                exp.append(("Pwrite", x["a"], x["off"], x["n"], x["r"]))
+            else:
+                exp.append((x["c"].capitalize(), x["a"], x["r"]))
+        c["ops"].append(o)
+        c["expect"].append(dict(st=st["st"], os=exp))
+    return c
+
+
+def os_tuple(e):
+    k = e["e"]
+    if k == "Open":
+        return ("Open", e["path"], e["r"])
+    if k == "Unlink":
+        return ("Unlink", e["path"], 0)
+    if k == "Pwrite":
+        return ("Pwrite", e["fd"], e["off"], e["req"], e["r"])
+    if k in ("Flock", "Close"):
+        return (k, e["fd"], e["r"])
+    return (k,)
+
+
+def compare(case, ops, ex):
+    """Model expectation vs what the real code did: returned state and the exact OS call sequence of every step."""
+    out = []
+    for i, exp in enumerate(case["expect"]):
+        if exp["st"] < 0:      # the model says the process dies here (unbounded recursion)
+            if ex is None or ex["how"] == "ok":
+                out.append("step %d (%s): model predicts stack exhaustion, code survived" % (i, case["ops"][i]["op"]))
+            break
+        if i >= len(ops) or ops[i]["ret"] is None:
+            out.append("step %d (%s): no return observed (exit %s)" % (i, case["ops"][i]["op"], ex and ex["how"]))
+            break
+        got = [os_tuple(e) for e in ops[i]["os"] if e["e"] not in ("Access", "Suppressed")]
+        want = [tuple(x) for x in exp["os"]]
+        if ops[i]["ret"]["st"] != exp["st"]:
+            out.append("step %d (%s): state %d, model %d" % (i, case["ops"][i]["op"], ops[i]["ret"]["st"], exp["st"]))
+        if got != want:
+            j = next((k for k in range(min(len(got), len(want))) if got[k] != want[k]), min(len(got), len(want)))
+            out.append("step %d (%s): OS call #%d is %s, model %s" % (i, case["ops"][i]["op"], j, got[j] if j < len(got) else "none",
+                                                                        want[j] if j < len(want) else "none"))
+        if out:
+            break
+    return out
+
+
+# ------------------------------------------------------------------------------------------------ TIFF read-back
+def tiff_acquisitions(case, ops):
+    """Finished acquisitions of tiff / tiff-json devices in which no call reported a failure and N >= 1 frames were appended."""
+    st = {}
+    acqs = []
+    for o, g in zip(case["ops"], ops):
+        if g["skip"] or g["ret"] is None:
+            if g["ret"] is None and not g["skip"]:
+                break
+            continue
+        d = o["d"]
+        s = st.setdefault(d, dict(pid=None, mid=None, a=0, cur=None))
+        kind = case["devs"][d]
+        if kind not in ("tiff", "tiff-json"):
+            continue
+        ret = g["ret"]["st"]
+        failed = any(e["e"] in ("Open", "Flock", "Pwrite") and e["r"] < 0 for e in g["os"])
+        if o["op"] == "set" and ret == 2:
+            s["pid"], s["mid"] = o["pid"], o.get("mid")
+        elif o["op"] == "start":
+            if ret == 3:
+                s["a"] += 1
+                s["cur"] = dict(x=case["id"], a=s["a"], kind=kind, pid=s["pid"], meta=case["metas"].get(s["mid"]) if s["mid"] else None,
+                                frames=[], clean=not failed, d=d)
+            else:
+                s["cur"] = None
+        elif o["op"] == "append" and s["cur"] is not None:
+            if ret == 3 and not failed:
+                s["cur"]["frames"] += o["frames"]
+            else:
+                s["cur"]["clean"] = False
+        elif o["op"] in ("stop", "close") and s["cur"] is not None:
+            if s["cur"]["clean"] and not failed and s["cur"]["frames"]:
+                acqs.append(s["cur"])
+            s["cur"] = None
+    return acqs
+
+
+def tiff_events_for(case, ops, workdir):
+    evs = []
+    for a in tiff_acquisitions(case, ops):
+        base = os.path.join(workdir, case["paths"][a["pid"]])
+        if a["kind"] == "tiff":
+            evs.append((a, tiffread.events(base, a)))
+        else:
+            evs.append((a, tiffread.events(os.path.join(base, "data.tif"), a, os.path.join(base, "metadata.json"))))
+    return evs
+
+
+# ------------------------------------------------------------------------------------------------ judging
+class Judge:
+    def __init__(self, chk, prop, bdir):
+        self.chk, self.prop, self.bdir = chk, prop, bdir
+        self.per_sig = {}
+        self.events = 0
+        self.traces = 0
+        self.other = {}
+
+    def _report(self, rule, sig, text, case, obs):
+        if rule in HARNESS_RULES:
+            raise Broken("%s flagged a harness problem: %s: %s" % (obs, rule, text[:400]))
+        if rule not in RULES[self.prop]:
+            self.other[rule] = self.other.get(rule, 0) + 1
+            return
+        self.per_sig[sig] = self.per_sig.get(sig, 0) + 1
+        if self.per_sig[sig] > 2:
+            return
+        c = {k: v for k, v in case.items() if k != "expect"}
+        self.chk.violation(sig, text, replay_obj={"kind": "files_case", "obs": obs, "rule": rule, "case": c})
+
+    def file_obs(self, runs):
+        """runs: list of (cases, trace, workdir). Judges every execution by FileObs."""
+        with cf.ThreadPoolExecutor(max_workers=max(2, NCPU // 2)) as ex:
+            verdicts = list(ex.map(lambda r: validate("FileObs", r[1], self.bdir), runs))
+        for (cases, trace, wd), v in zip(runs, verdicts):
+            self.events += v["consumed"]
+            self.traces += len(cases)
+            if not v["bad"]:
+                continue
+            execs, lines = split_trace(trace)
+            starts = [s for s, _ in execs]
+            for rule, line in v["bad"]:
+                xi = max(i for i, s in enumerate(starts) if s <= line)
+                case, evs = cases[xi], execs[xi][1]
+                ev = json.loads(lines[line - 1])
+                d = ev.get("d")
+                upto = evs[:line - starts[xi] + 1]
+                calls = [e for e in upto if e["e"] == "Call" and (d is None or e["d"] == d)]
+                op = calls[-1]["op"] if calls else "-"
+                dd = d if d is not None else (calls[-1]["d"] if calls else None)
+                kind = case["devs"].get(dd, "-") if dd is not None else "-"
+                sig = "rule=%s kind=%s op=%s" % (rule, kind, op)
+                hist = " ; ".join("%s(%d)%s" % (o["op"], o["d"], ("[sw " + ",".join(o["sw"]) + "]") if o.get("sw") else "") for o in case["ops"])
+                txt = "%s refused %s  | %s device, during %s; fault=%s; history: %s" % (rule, short(lines[line - 1]), kind, op, case.get("fault"), hist[:700])
+                self._report(rule, sig, txt, case, "FileObs")
+            if v["nbad"] > len(v["bad"]):
+                self.chk.notes.append("%d refusals in %s, first %d examined" % (v["nbad"], os.path.basename(trace), len(v["bad"])))
+
+    def tiff_obs(self, runs):
+        """Parses every finished tiff acquisition of the runs with the independent reader and judges the events by TiffObs."""
+        jobs = []
+        for ci, (cases, trace, wd) in enumerate(runs):
+            execs, _ = split_trace(trace)
+            idx, out = [], os.path.join(self.bdir, os.path.basename(trace) + ".tiff.ndjson")
+            n = 0
+            with open(out, "w") as f:
+                for case, (_, evs) in zip(cases, execs):
+                    ops, ex = per_op(evs)
+                    for a, tev in tiff_events_for(case, ops, wd):
+                        idx.append((n + 1, case, a))
+                        for e in tev:
+                            f.write(json.dumps(e) + "\n")
+                        n += len(tev)
+            if n:
+                jobs.append((out, idx))
+        with cf.ThreadPoolExecutor(max_workers=max(2, NCPU // 2)) as ex:
+            verdicts = list(ex.map(lambda j: validate("TiffObs", j[0], self.bdir), jobs))
+        nacq = 0
+        for (out, idx), v in zip(jobs, verdicts):
+            self.events += v["consumed"]
+            nacq += len(idx)
+            lines = open(out).read().splitlines()
+            for rule, line in v["bad"]:
+                first, case, a = [t for t in idx if t[0] <= line][-1]
+                sig = "rule=%s kind=%s" % (rule, a["kind"])
+                hist = " ; ".join("%s(%d)" % (o["op"], o["d"]) + ("[%d frames]" % len(o["frames"]) if o["op"] == "append" else "") for o in case["ops"])
+                txt = "%s refused %s | acquisition %d of device %d (%s, %d frames, metadata %s); history: %s" % (
+                    rule, lines[line - 1][:300], a["a"], a["d"], a["kind"], len(a["frames"]), "yes" if a["meta"] else "no", hist[:600])
+                self._report(rule, sig, txt, case, "TiffObs")
+            os.remove(out)
+        return nacq
+
+    def finish(self):
+        if self.per_sig:
+            self.chk.set("refusal_signatures", self.per_sig)
+        if self.other:
+            self.chk.notes.append("refusals by rules of other properties (reported by their own checks): %s" % self.other)
+
+
+def short(line, n=300):
+    """A trace line with long cell lists abbreviated."""
+    import re
+    return re.sub(r'"cells":\[((?:\d+,){6})[\d,]*\]', r'"cells":[\1...]', line)[:n]
+
+
+def cleanup(runs):
+    for cases, tr, wd in runs:
+        shutil.rmtree(wd, ignore_errors=True)
+        for p in (tr, tr[:-7] + ".cases"):
+            try:
+                os.remove(p)
+            except OSError:
+                pass
+
+
+# ------------------------------------------------------------------------------------------------ random cases
+def rnd_frame(rng, idx, align=True):
+    ty = rng.choice(TYPES)
+    w, h = rng.randint(1, 9), rng.randint(1, 7)
+    npx = w * h * BPP[ty]
+    pad = (-(96 + npx)) % 8 if align else rng.randint(0, 7)
+    return dict(w=w, h=h, ty=ty, pad=pad, id=idx, hw=rng.randint(0, 2 ** rng.choice([3, 20, 40])), trt=rng.randint(0, 2 ** rng.choice([4, 30, 62])),
+                thw=rng.randint(0, 2 ** rng.choice([4, 30, 62])))
+
+
+def rnd_script(rng, byte_granular=True):
+    n = rng.choice([0, 0, 1, 1, 2, 3, 5])
+    toks = []
+    for _ in range(n):
+        toks.append(rng.choice(["H", "Z", "F", "S%d" % rng.randint(1, 150), "S1", "H", "Z"]))
+    return toks
+
+
+def rnd_case(rng, cid, kinds, unit, ndev_max=2, scripts=True):
+    """set/start/append*/stop cycles on one or two devices, interleaved; paths are fresh per acquisition."""
+    nd = rng.choice([1, 1, 2]) if ndev_max > 1 else 1
+    c = dict(id=cid, unit=unit, fault=None, devs={d: rng.choice(kinds) for d in range(nd)}, paths={}, metas={}, ops=[], expect=None, origin="random")
+    for i, m in enumerate(METAS, 1):
+        c["metas"][i] = m
+    progs = []
+    npath = 0
+    for d in range(nd):
+        p = [dict(op="open", d=d)]
+        ncyc = rng.choice([1, 1, 2, 3])
+        for cyc in range(ncyc):
+            npath += 1
+            c["paths"][npath] = "x%d_p%d%s" % (cid, npath, ext_of(c["devs"][d]))
+            sx, sy = rng.choice(SCALES)
+            # (tiff-json refuses a configuration without metadata, so it mostly gets one)
+            mids = [None, 1, 2, 3, 4, 5, 1, 2, 3, 4, 5, 3] if c["devs"][d] == "tiff-json" else [None, None, 1, 2, 3, 4, 5]
+            p.append(dict(op="set", d=d, pid=npath, form=rng.choice(["plain", "file"]), mid=rng.choice(mids), sx=sx, sy=sy))
+            if rng.random() < 0.08:
+                continue                       # configured, never started
+            p.append(dict(op="start", d=d))
+            idx = rng.choice([0, 0, 0, 7])
+            for _ in range(rng.choice([1, 1, 2, 3, 4]) if rng.random() > 0.05 else 0):
+                fr = [rnd_frame(rng, idx + i, align=rng.random() < 0.8) for i in range(rng.randint(1, 3))]
+                idx += len(fr)
+                o = dict(op="append", d=d, frames=fr)
+                if scripts:
+                    o["sw"] = rnd_script(rng)
+                p.append(o)
+            if cyc < ncyc - 1 or rng.random() < 0.7:     # only the last acquisition may be ended by close
+                o = dict(op="stop", d=d)
+                if scripts and rng.random() < 0.3:
+                    o["sw"] = rnd_script(rng)
+                p.append(o)
+        p.append(dict(op="close", d=d))
+        progs.append(p)
+    while any(progs):                          # random interleaving that keeps each device's order
+        p = rng.choice([q for q in progs if q])
+        c["ops"].append(p.pop(0))
+    return c
+
+
+# ------------------------------------------------------------------------------------------------ fault enumeration (C16)
+def fr_simple(i, w=3, h=2, ty="u16"):
+    return dict(w=w, h=h, ty=ty, pad=(-(96 + w * h * BPP[ty])) % 8, id=i, hw=i + 100, trt=1000 + i, thw=2000 + i)
+
+
+def reference_histories(kind, other):
+    """Life-cycle histories of the property's quantifier; device 0 has the kind under test, device 1 competes for descriptors."""
+    A = lambda d, ids: dict(op="append", d=d, frames=[fr_simple(i) for i in ids])
+    S = lambda d, p, mid=None: dict(op="set", d=d, pid=p, form="plain" if p % 2 else "file", mid=mid, sx=1, sy=1)
+    O = lambda op, d: dict(op=op, d=d)
+    H = {
+        "never_started": [O("open", 0), S(0, 1, 1), O("close", 0)],
+        "opened_only": [O("open", 0), O("close", 0)],
+        "one_cycle": [O("open", 0), S(0, 1, 1), O("start", 0), A(0, [0, 1]), A(0, [2]), O("stop", 0), O("close", 0)],
+        "close_while_running": [O("open", 0), S(0, 1), O("start", 0), A(0, [0]), O("close", 0)],
+        "two_cycles": [O("open", 0), S(0, 1, 1), O("start", 0), A(0, [0]), O("stop", 0), S(0, 2), O("start", 0), A(0, [0, 1]), O("stop", 0), O("close", 0)],
+        "restart_after_failure": [O("open", 0), S(0, 1), O("start", 0), A(0, [0]), A(0, [1]), O("stop", 0), S(0, 2), O("start", 0), A(0, [0]), O("stop", 0), O("close", 0)],
+        "two_devices": [O("open", 0), S(0, 1), O("start", 0), A(0, [0]), O("open", 1), S(1, 2), O("stop", 0), O("start", 1), A(0, [1]), A(1, [0]),
+                        O("close", 0), A(1, [1]), O("stop", 1), O("close", 1)],
+        "two_devices_late_close": [O("open", 0), S(0, 1), O("start", 0), A(0, [0]), A(0, [1]), O("open", 1), S(1, 2), O("start", 1), A(1, [0]), A(0, [2]),
+                                   O("stop", 0), O("stop", 1), O("close", 1), O("close", 0)],
+    }
+    out = []
+    for name, ops in H.items():
+        two = any(o["d"] == 1 for o in ops)
+        out.append((name, {0: kind, 1: other} if two else {0: kind}, ops))
+    return out
+
+
+def make_case(cid, devs, ops, unit, fault=None):
+    c = dict(id=cid, unit=unit, fault=fault, devs=dict(devs), paths={}, metas={1: '{"k":1}'}, ops=[dict(o) for o in ops], expect=None, origin="fault")
+    for o in c["ops"]:
+        if o["op"] == "set":
+            c["paths"][o["pid"]] = "x%d_p%d%s" % (cid, o["pid"], ext_of(devs[o["d"]]))
+    return c
+
+
+# ------------------------------------------------------------------------------------------------ replay
+def replay_script(prop, path):
+    obj = json.load(open(path))["replay"]
+    case = norm_case(obj["case"])
+    bdir = build_dir("replay_" + prop)
+    exe = build_files(bdir)
+    runs = run_cases(exe, [case], bdir, "replay", nchunks=1)
+    cases, trace, wd = runs[0]
+    for l in open(trace):
+        log("  " + short(l.rstrip(), 240))
+    hits = []
+    if obj.get("obs") == "TiffObs":
+        execs, _ = split_trace(trace)
+        ops, ex = per_op(execs[0][1])
+        out = os.path.join(bdir, "replay.tiff.ndjson")
+        with open(out, "w") as f:
+            for a, tev in tiff_events_for(case, ops, wd):
+                for e in tev:
+                    f.write(json.dumps(e) + "\n")
+                    log("  " + json.dumps(e)[:240])
+        if os.path.getsize(out):
+            v = validate("TiffObs", out, bdir)
+            hits = [b for b in v["bad"] if b[0] in RULES[prop]]
+    else:
+        v = validate("FileObs", trace, bdir)
+        hits = [b for b in v["bad"] if b[0] in RULES[prop]]
+    if hits:
+        log("VIOLATION property=%s replay=%s" % (prop, path))
+        log("  refused: %s" % hits)
+        return 1
+    log("replay accepted by %s (no refusal of a %s rule)" % (obj.get("obs", "FileObs"), prop))
+    return 0
+
+
+# ------------------------------------------------------------------------------------------------ model stage
+def model_stage(chk, prop, bdir, thorough):
+    """(1) exhaustive TLC on the repaired models; the as-it-was variants must violate. Returns nothing; fills evidence."""
+    jobs = []
+    T = 2400 if thorough else 600
+    if prop in ("C14", "C16"):
+        jobs.append(("RawWriter", "mc_raw", raw_consts(MaxCycles=3 if thorough else 2, MaxFaultAt=10 if thorough else 8,
+                                                       NScripts=7 if thorough else 5), RAW_INV, True))
+        jobs.append(("RawWriter", "asis_raw", raw_consts(FIXED=0, NDev=2, MaxFaultAt=4), RAW_INV, False))
+    if prop in ("C15", "C16"):
+        if prop == "C15":
+            jobs.append(("TiffWriter", "mc_tiff", tiff_consts(NDev=1, NKinds=3, NScripts=5 if thorough else 4, MaxPacket=3 if thorough else 2,
+                                                               MaxAppends=2), TIFF_INV, True))
+            jobs.append(("TiffWriter", "mc_tiff2", tiff_consts(NDev=2, NKinds=2, NScripts=2, MaxAppends=2 if thorough else 1), TIFF_INV, True))
+        else:
+            jobs.append(("TiffWriter", "mc_tiff_faults", tiff_consts(NDev=2 if thorough else 1, NKinds=2, NScripts=3 if thorough else 2,
+                                                                      MaxFaultAt=15, MaxAppends=2 if thorough else 1), TIFF_INV, True))
+            jobs.append(("TiffWriter", "mc_tiff2", tiff_consts(NDev=2, NKinds=2, NScripts=2, MaxAppends=1), TIFF_INV, True))
+            jobs.append(("TiffWriter", "asis_tiff", tiff_consts(FIX_TIFF=0, NDev=2, MaxAppends=1, NScripts=1, MaxFaultAt=8, Kinds1='{"tiff"}'), TIFF_INV, False))
+        jobs.append(("TiffWriter", "asis_sbs", tiff_consts(FIX_SBS=0, Kinds1='{"sbs"}', NScripts=1, MaxAppends=1), TIFF_INV, False))
+        if prop == "C15":
+            jobs.append(("TiffWriter", "asis_meta", tiff_consts(FIX_META=0, Kinds1='{"tiff"}', NScripts=1, MaxAppends=1), TIFF_INV, False))
+    with cf.ThreadPoolExecutor(max_workers=3) as ex:
+        res = list(ex.map(lambda j: run_mc(j[0], j[1], j[2], j[3], bdir, T, workers=TLC_WORKERS if j[4] else 2), jobs))
+    states = trans = 0
+    for (spec, name, consts, inv, repaired), r in zip(jobs, res):
+        what = "%s %s" % (spec, name)
+        if repaired:
+            if r.violated:
+                raise Broken("%s: the implementation-shaped model (repaired variant) violates %s; the model no longer mirrors "
+                             "correct code (see %s)" % (what, r.violated, r.outpath))
+            tlc_or_broken(r, what)
+            if r.distinct < 50:
+                raise Broken("%s: vacuous state space (%d states)" % (what, r.distinct))
+            states += r.distinct
+            trans += r.generated
+            chk.cov.setdefault("models", []).append({"model": what, "constants": {k: v for k, v in consts.items() if k not in ("Ghost", "Export")},
+                                                     "distinct_states": r.distinct, "transitions": r.generated, "depth": r.depth,
+                                                     "complete": r.queue == 0, "wall_s": round(r.wall, 1)})
+        else:
+            if r.timed_out or r.error:
+                raise Broken("%s: TLC failed: %s" % (what, r.error or "timeout"))
+            chk.cov.setdefault("as_it_was_models", []).append({"model": what, "violates": r.violated or "nothing",
+                                                               "states_until_violation": r.distinct})
+            if not r.violated:
+                chk.notes.append("%s: the as-it-was variant no longer violates an invariant" % what)
+    chk.set("states", states)
+    chk.set("transitions", trans)
+
+
+def replay_stage(chk, prop, exe, bdir, thorough, rng, judge):
+    """(2)+(3) for TLC-exported histories: replay, compare (drift), judge traces and files by the Obs specs."""
+    exports = []
+    if prop == "C14":
+        exports.append(("RawWriter", "ex_raw", raw_consts(NDev=1, MaxFaultAt=0, NScripts=7 if thorough else 5, MaxCycles=3 if thorough else 2), raw_edge_to_case))
+    elif prop == "C15":
+        # (scripts 1..3 are partial writes the write-all loop absorbs; giving up after three empty writes is a failure: C16)
+        exports.append(("TiffWriter", "ex_tiff", tiff_consts(NDev=1, Real=True, Ghost=False, NKinds=3 if thorough else 2, NScripts=3,
+                                                             MaxPacket=3 if thorough else 2), tiff_edge_to_case))
+    else:
+        exports.append(("RawWriter", "ex_raw", raw_consts(NDev=2, MaxFaultAt=8, NScripts=3, MaxAppends=1 if not thorough else 2, PacketSizes="{1, 2}"), raw_edge_to_case))
+        exports.append(("TiffWriter", "ex_tiff", tiff_consts(NDev=1, Real=True, Ghost=False, NKinds=2, NScripts=2, MaxAppends=1, MaxFaultAt=15), tiff_edge_to_case))
+    cap = 20000 if thorough else 1600
+    all_runs = []
+    replayed = drift = 0
+    for spec, name, consts, conv in exports:
+        r, edges = run_export(spec, name, consts, bdir, 2400 if thorough else 600)
+        ops_seen = {}
+        for e in edges:
+            k = e["path"][-1]["op"]
+            ops_seen[k] = ops_seen.get(k, 0) + 1
+        missing = [o for o in ("open", "set", "start", "append", "stop", "close") if not ops_seen.get(o)]
+        if missing or len(edges) < 30:
+            raise Broken("export of %s is vacuous: %d transitions, calls never taken: %s" % (name, len(edges), missing))
+        total = len(edges)
+        if total > cap:
+            edges = rng.sample(edges, cap)
+        cases = [conv(e, i + 1, rng) for i, e in enumerate(edges)]
+        runs = run_cases(exe, cases, bdir, name)
+        nd = 0
+        for cs, trace, wd in runs:
+            execs, _ = split_trace(trace)
+            if len(execs) != len(cs):
+                raise Broken("trace %s has %d executions for %d cases" % (trace, len(execs), len(cs)))
+            for case, (_, evs) in zip(cs, execs):
+                ops, ex = per_op(evs)
+                d = compare(case, ops, ex)
+                if d:
+                    nd += 1
+                    if nd <= 3:
+                        chk.drift_note("%s history %s: %s" % (spec, " ".join("%s%d" % (o["op"], o["d"]) for o in case["ops"]), d[0]))
+        chk.cov.setdefault("replay", []).append({"model": "%s %s" % (spec, name), "transitions_in_graph": total, "histories_replayed": len(cases),
+                                                 "calls_by_kind": ops_seen, "histories_disagreeing": nd, "export_states": r.distinct})
+        chk.sample({"exported_history": {"fault": edges[0]["fault"], "path": edges[min(len(edges) - 1, 40)]["path"]}})
+        replayed += len(cases)
+        drift += nd
+        all_runs += runs
+    chk.set("spec_histories_replayed_into_impl", replayed)
+    if drift:
+        chk.assume("DRIFT: the storage code no longer follows the writer models on %d of %d replayed histories; the exhaustive "
+                   "model-level result does not transfer for this run, the verdict rests on the executed traces" % (drift, replayed))
+    return all_runs, drift
+
+
+def main(prop, tier):
+    chk = Check(prop, tier, "fault_enumeration" if prop == "C16" else "model_checking")
+    bdir = build_dir(prop)
+    exe = build_files(bdir)
+    thorough = tier == "thorough"
+    rng = random.Random(seed() * 1000003 + int(prop[1:]))
+    judge = Judge(chk, prop, bdir)
+
+    t0 = time.time()
+    with cf.ThreadPoolExecutor(max_workers=2) as ex:
+        fm = ex.submit(model_stage, chk, prop, bdir, thorough)
+        runs, drift = replay_stage(chk, prop, exe, bdir, thorough, rng, judge)
+        log("  replay stage done after %.0fs" % (time.time() - t0))
+        fm.result()
+    log("  model stage done after %.0fs" % (time.time() - t0))
+
+    # ---- (4) implementation-driven cases ------------------------------------------------------------------------------
+    extra = []
+    nontrivial = 0
+    if prop == "C14":
+        n = 3000 if thorough else 400
+        if drift and not thorough:
+            n *= 3
+        cases = [rnd_case(rng, 100000 + i, ["raw"], unit=1) for i in range(n)]
+        extra = run_cases(exe, cases, bdir, "rnd")
+        chk.set("random_histories", n)
+    elif prop == "C15":
+        n = 4000 if thorough else 500
+        if drift and not thorough:
+            n *= 3
+        cases = [rnd_case(rng, 100000 + i, ["tiff", "tiff-json"], unit=0, scripts=(i % 2 == 0)) for i in range(n)]
+        extra = run_cases(exe, cases, bdir, "rnd")
+        chk.set("random_histories", n)
+    else:
+        cid = 200000
+        refs, todo = [], []
+        for kind, other in (("raw", "tiff"), ("tiff", "raw"), ("tiff-json", "tiff"), ("trash", "raw")):
+            for name, devs, ops in reference_histories(kind, other):
+                cid += 1
+                refs.append((name, make_case(cid, devs, ops, unit=104 if kind == "raw" else 0)))
+        ref_runs = run_cases(exe, [c for _, c in refs], bdir, "ref")
+        counts = {}
+        for cs, trace, wd in ref_runs:
+            execs, _ = split_trace(trace)
+            for case, (_, evs) in zip(cs, execs):
+                counts[case["id"]] = max([e.get("k", 0) for e in evs] + [0])
+        for name, c in refs:
+            K = counts.get(c["id"], 0)
+            for k in range(1, K + 1):
+                for mode in ("t", "p"):
+                    cid += 1
+                    fc = make_case(cid, c["devs"], c["ops"], c["unit"], fault=(k, mode))
+                    fc["ref"] = name
+                    todo.append(fc)
+        fault_runs = run_cases(exe, todo, bdir, "flt")
+        hit = 0
+        for cs, trace, wd in fault_runs:
+            with open(trace) as f:
+                txt = f.read()
+            hit += sum(1 for seg in txt.split('{"e":"Reset"')[1:] if '"inj":1' in seg)
+        nontrivial = hit
+        if len(todo) < 100 or hit < len(todo) // 2:
+            raise Broken("fault enumeration is vacuous: %d cases, %d with the fault injected" % (len(todo), hit))
+        extra = ref_runs + fault_runs
+        chk.set("reference_histories", len(refs))
+        chk.set("fault_cases", len(todo))
+        chk.set("fault_cases_where_fault_struck", hit)
+        chk.sample({"fault_case": {k: v for k, v in todo[len(todo) // 3].items() if k in ("devs", "fault", "ref")},
+                    "ops": ["%s(%d)" % (o["op"], o["d"]) for o in todo[len(todo) // 3]["ops"]]})
+        if thorough:
+            rc = [rnd_case(rng, 300000 + i, ["raw", "tiff", "tiff-json", "trash"], unit=0) for i in range(1500)]
+            for i, c in enumerate(rc):
+                c["fault"] = (rng.randint(1, 30), rng.choice("tp"))
+            extra += run_cases(exe, rc, bdir, "rndflt")
+
+    # ---- (3) judge everything that was executed ----------------------------------------------------------------------------
+    log("  implementation-driven cases executed after %.0fs" % (time.time() - t0))
+    all_runs = runs + extra
+    nacq = 0
+    if prop == "C15":
+        nacq = judge.tiff_obs(all_runs)
+        if nacq < 50:
+            raise Broken("vacuous: only %d finished tiff acquisitions were parsed" % nacq)
+        chk.set("tiff_files_parsed", nacq)
+    else:
+        judge.file_obs(all_runs)
+    judge.finish()
+    log("  traces judged after %.0fs" % (time.time() - t0))
+    ncases = sum(len(r[0]) for r in all_runs)
+    if judge.events < 500:
+        raise Broken("vacuous: only %d events judged" % judge.events)
+    with open(all_runs[-1][1]) as f:
+        head = [json.loads(next(f)) for _ in range(14)]
+    chk.sample({"impl_trace_prefix": [{k: (v if not isinstance(v, list) or len(v) < 8 else v[:8] + ["..."]) for k, v in e.items()} for e in head]})
+    cleanup(all_runs)
+
+    chk.set("traces_validated_against_impl", ncases if prop != "C15" else nacq)
+    chk.set("executions", ncases)
+    chk.set("events_validated", judge.events)
+    chk.set("evaluations", ncases)
+    chk.set("distinct_nontrivial", nontrivial if prop == "C16" else (nacq if prop == "C15" else ncases))
+    chk.set("rule", {
+        "C14": "every transition of the bounded RawWriter graph with a witness history (distinct by construction) + seeded random histories; "
+               "non-trivial = the execution reached a start",
+        "C15": "every transition of the bounded TiffWriter graph (real section sizes) with a witness history + seeded random histories; "
+               "counted = finished acquisitions with >= 1 frame whose file was parsed by the independent reader",
+        "C16": "reference life-cycle histories x every fallible OS call index x transient/persistent x storage kind (exhaustive), plus "
+               "TLC-exported fault histories; non-trivial = the injected fault was actually hit by an OS call",
+    }[prop])
+    chk.set("exhaustive", True)
+    chk.set("checker_cmd", "tlc RawWriter/TiffWriter (generated MC cfgs) ; tlc FileObs / TiffObs with TRACE=<impl trace>")
+    chk.assume("paths are fresh per acquisition (file_create never truncates; re-using a path is outside the properties)")
+    chk.assume("the OS seam is the only way the devices reach files (platform.c: open, close, pwrite, flock, unlink, access); "
+               "directory creation by the composite goes through std::filesystem and is not faulted")
+    chk.assume("exhaustiveness is for the model constants listed under 'models'; beyond them seeded random histories")
+    if prop == "C15":
+        chk.assume("C15 file clauses are judged for acquisitions without OS failures (faults belong to C16)")
+    return chk.finish()
